@@ -45,6 +45,7 @@ def handle (st : St) (ws : List String) : St × Verdict :=
     match id.toNat?, acap.toNat?, mai.toNat? with
     | some id, some a, some mai => (assocSet st id { t := { alloc := a ≠ 0, mai := mai } }, ok)
     | _, _, _ => (st, { model := some "bad-op" })
+  | "note" :: _ => (st, ok)   -- free text for the replay file (e.g. the Lua source of a constructor); no effect
   | op :: id :: rest =>
     match id.toNat? >>= fun id => (assocGet st id).map (fun e => (id, e)) with
     | none => (st, { model := some "bad-table" })
